@@ -660,6 +660,45 @@ func xBuildOpt(c *xCase, esc jet.SafeWriter, useEsc bool, html bool) (*xWorld, e
 	return w, nil
 }
 
+// failingWriter takes short writes whole and cuts long ones short (a full disk, a closed connection)
+type failingWriter struct{ max int }
+
+func (f *failingWriter) Write(p []byte) (int, error) {
+	if len(p) <= f.max {
+		return len(p), nil
+	}
+	return f.max, io.ErrShortWrite
+}
+
+// executeInto runs an execution for its side effects only
+func (w *xWorld) executeInto(r xRun, out io.Writer) {
+	defer func() { recover() }()
+	t, err := w.set.GetTemplate(r.Entry)
+	if err != nil {
+		return
+	}
+	var vars jet.VarMap
+	if r.Vars != nil && !w.nilVars {
+		vars = jet.VarMap{}
+		for n, v := range r.Vars {
+			if v != xUnset {
+				vars.Set(n, atomValue(v))
+			}
+		}
+	}
+	for i, e := range w.colls {
+		if vars == nil && !w.nilVars {
+			vars = jet.VarMap{}
+		}
+		vars.Set(fmt.Sprintf("c%d", i), collValue(e))
+	}
+	var data interface{}
+	if r.Data != "nil" {
+		data = atomValue(r.Data)
+	}
+	t.Execute(out, vars, data)
+}
+
 func (w *xWorld) execute(r xRun) (o xObs) {
 	var b bytes.Buffer
 	defer func() {
@@ -819,6 +858,14 @@ func xReplayWith(tag string) func(i int, raw json.RawMessage) Result {
 			escs = append(escs, func(s string) string { return "‹" + s + "›" })
 			key = "alt:" + key
 		}
+		// "poison": the first execution of the history is first run into writers that cut long writes short; whatever that leaves behind (pooled buffers with undelivered bytes) must not show later
+		if tag == "poison" && len(v.Case.Runs) > 0 {
+			// single statements write a few bytes at a time; the commit of a try writes its whole buffer at once
+			for _, max := range []int{10, 16, 28} {
+				w.executeInto(v.Case.Runs[0], &failingWriter{max: max})
+			}
+			key = "poison:" + key
+		}
 		// a program ranging over a two-entry map is specified for one iteration order; Go picks the order at
 		// random per range statement, so such an execution is repeated until that order comes up
 		attempts := 1
@@ -850,6 +897,9 @@ func init() {
 	commands["replay-exec"] = func(a []string) int {
 		defer installTracer()()
 		return replayLoop(a[0], a[1], xReplayWith(""))
+	}
+	commands["replay-exec-poison"] = func(a []string) int {
+		return replayLoop(a[0], a[1], xReplayWith("poison"))
 	}
 	commands["replay-exec-alt"] = func(a []string) int {
 		return replayLoop(a[0], a[1], xReplayWith("alt"))
